@@ -3,6 +3,7 @@ package rules
 import (
 	"fmt"
 	"go/types"
+	"strings"
 
 	"dirkcheck/internal/an"
 	"dirkcheck/internal/prog"
@@ -22,11 +23,29 @@ import (
 //     guards, timers, pools): such code decides when, and for whom, the closure runs - a result computed under one caller's
 //     name is then delivered to another.
 func (c *Ctx) CredentialsRequestScoped(prop string) {
-	rule := "C19.O4 credentials.request-scoped"
-	isCred := func(t types.Type) bool {
+	c.requestScoped("C19.O4 credentials.request-scoped", "credentials", 20, func(t types.Type) bool {
 		p, ok := t.(*types.Pointer)
 		return ok && namedIs(p.Elem(), pkgChecker, "Credentials")
-	}
+	})
+}
+
+// RequestMessageScoped (C08.O10 request.message-scoped): the same discipline for the protobuf request message a handler is
+// given: what is signed and answered for a request is computed from that request's own message. A request message is never
+// stored in longer-lived state, sent, or captured by a closure that is started as a goroutine or handed to code outside the
+// module (single-flight groups, pools, timers): coalescing two requests on a key that omits part of the message answers one
+// of them with the other's signature.
+func (c *Ctx) RequestMessageScoped(prop string) {
+	c.requestScoped("C08.O10 request.message-scoped", "request message", 10, func(t types.Type) bool {
+		p, ok := t.(*types.Pointer)
+		if !ok {
+			return false
+		}
+		n, ok := p.Elem().(*types.Named)
+		return ok && n.Obj().Pkg() != nil && n.Obj().Pkg().Path() == pkgPB && strings.HasSuffix(n.Obj().Name(), "Request")
+	})
+}
+
+func (c *Ctx) requestScoped(rule string, what string, floor int, isCred func(types.Type) bool) {
 	nvals, nfn := 0, 0
 	for _, fn := range c.P.ModuleFuncs() {
 		if prog.IsTestish(prog.PkgPathOf(fn)) || fn.Blocks == nil {
@@ -74,6 +93,15 @@ func (c *Ctx) CredentialsRequestScoped(prop string) {
 					}
 					if !localAddr(x.Addr) {
 						why = "it is stored into " + an.Term(x.Addr) + ", which outlives the request"
+					} else if cell, isCell := x.Addr.(*ssa.Alloc); isCell {
+						// a local variable (or a captured parameter's cell): the closures that capture the cell
+						for _, cr := range *cell.Referrers() {
+							if mc, isMC := cr.(*ssa.MakeClosure); isMC {
+								if w := c.closureEscapes(mc); w != "" {
+									why = "it is captured by a closure that " + w
+								}
+							}
+						}
 					}
 				case *ssa.MapUpdate:
 					if x.Value == v || x.Key == v {
@@ -94,7 +122,7 @@ func (c *Ctx) CredentialsRequestScoped(prop string) {
 				}
 				if why != "" {
 					bad++
-					c.R.Fail(rule, Fn(fn), c.Pos(r), "a request's credentials can reach another request: "+why, "credentials are only handed down, read, kept in locals or in objects this call allocated, or captured by closures the call itself runs or hands to module code", nil)
+					c.R.Fail(rule, Fn(fn), c.Pos(r), "a request's "+what+" can reach another request: "+why, "credentials are only handed down, read, kept in locals or in objects this call allocated, or captured by closures the call itself runs or hands to module code", nil)
 				}
 			}
 			// a local cell holding the credentials that is captured: the closures binding the cell
@@ -103,18 +131,18 @@ func (c *Ctx) CredentialsRequestScoped(prop string) {
 					if mc, ok := r.(*ssa.MakeClosure); ok {
 						if w := c.closureEscapes(mc); w != "" {
 							bad++
-							c.R.Fail(rule, Fn(fn), c.Pos(mc), "a request's credentials can reach another request: they are captured by a closure that "+w, "closures holding credentials are run by the call itself or handed to module code", nil)
+							c.R.Fail(rule, Fn(fn), c.Pos(mc), "a request's "+what+" can reach another request: captured by a closure that "+w, "closures holding credentials are run by the call itself or handed to module code", nil)
 						}
 					}
 				}
 			}
 		}
 		if bad == 0 {
-			c.R.OK(rule, Fn(fn), c.P.FuncPos(fn), "credentials values are only handed down, read, or kept in request-local storage")
+			c.R.OK(rule, Fn(fn), c.P.FuncPos(fn), what+" values are only handed down, read, or kept in request-local storage")
 		}
 	}
-	c.R.Floor(rule, "functions handling credentials", nfn, 20)
-	c.R.Count("credentials_values", nvals)
+	c.R.Floor(rule, "functions handling "+what, nfn, floor)
+	c.R.Count(strings.ReplaceAll(what, " ", "_")+"_values", nvals)
 	_ = fmt.Sprint
 }
 
